@@ -73,10 +73,10 @@ func runC20(t *testing.T, seed uint64, planJSON []byte, tier string) (res *Resul
 	} else {
 		g := simkit.NewGen(seed)
 		plan.Workers = g.Range(2, 8)
-		plan.PerWork = g.Range(2, 5)
+		plan.PerWork = g.Range(4, 8)
 		if tier == "thorough" {
 			plan.Workers = g.Range(2, 16)
-			plan.PerWork = g.Range(2, 8)
+			plan.PerWork = g.Range(4, 10)
 		}
 		plan.MaxIdle = simkit.Pick(g, []int{0, 1, 2, 8})
 		plan.MaxOpen = simkit.Pick(g, []int{0, 0, 4, 16})
@@ -92,6 +92,7 @@ func runC20(t *testing.T, seed uint64, planJSON []byte, tier string) (res *Resul
 		sim.MaxStep = 5000000
 		sim.MaxTime = 100000 * time.Hour
 		w.Hook.park = false
+		w.Hook.latencyMs, w.Hook.latSeq = 3, seed|1
 		sim.Batch, sim.BatchWindow = true, 20*time.Millisecond
 		w.CreateUndoLog(atSchema)
 		mk := func(name string, n int) {
@@ -140,8 +141,12 @@ func runC20(t *testing.T, seed uint64, planJSON []byte, tier string) (res *Resul
 		}
 		errRollback := errors.New("business rolls back")
 		// one transaction of a kind; returns whether it committed
+		forceKind := ""
 		one := func(g *simkit.Gen, wid, k int) (kind string, committed bool, err error) {
 			kind = []string{"at", "at", "xa", "tcc", "at-tx", "local"}[g.Intn(6)]
+			if forceKind != "" {
+				kind = forceKind
+			}
 			wantRollback := g.Prob(0.3)
 			if kind == "local" {
 				_, err = atDB.ExecContext(context.Background(), "UPDATE t_at SET note = ? WHERE id = ?", fmt.Sprintf("w%d-%d", wid, k), wid)
@@ -194,9 +199,11 @@ func runC20(t *testing.T, seed uint64, planJSON []byte, tier string) (res *Resul
 		}
 		wg0 := simkit.NewGen(seed ^ 1)
 		warm := runOnActorFree(func() {
-			for k := 0; k < 4; k++ {
+			for k, kd := range []string{"at", "xa", "tcc", "at-tx", "local"} {
+				forceKind = kd
 				one(wg0, 1, -k)
 			}
+			forceKind = ""
 		})
 		if !warm {
 			sim.Violate("C20", "termination", "warm-up-stuck", "the warm-up transactions did not finish")
@@ -241,6 +248,26 @@ func runC20(t *testing.T, seed uint64, planJSON []byte, tier string) (res *Resul
 				}
 			}
 			return out
+		}
+		// start the batch just before the next pass of the metadata refresher so
+		// that the refresh runs among the workers' statements: the phase of its
+		// one-minute ticker is learnt from the first pass that reads the
+		// information schema after the warm-up filled the cache
+		{
+			tWarm := sim.Now()
+			sim.Run(func() bool { return w.Hook.LastMeta() > tWarm || sim.Now()-tWarm > 125*time.Second })
+			phase := w.Hook.LastMeta()
+			if phase > tWarm {
+				sim.Probe("c20-refresher-pass-observed")
+				settle()
+				lead := time.Duration(40+20*int(seed%4)) * time.Millisecond
+				target := phase + ((sim.Now()-phase)/time.Minute+1)*time.Minute - lead
+				if d := target - sim.Now(); d > 0 {
+					sim.Sleep(d)
+				}
+			} else {
+				sim.Probe("c20-refresher-pass-not-observed")
+			}
 		}
 		prof0 := profile()
 		g0 := runtime.NumGoroutine()
